@@ -60,6 +60,14 @@ func (f *Same) Call(s *slip.Scope, args slip.List, depth int) slip.Object {
 }
 
 func same(x, y slip.Object) slip.Object {
+	if _, ok := x.(slip.Real); ok {
+		if _, ok = y.(slip.Real); ok {
+			if compareReals(x, y) != 0 {
+				return nil
+			}
+			return y
+		}
+	}
 	x, y = slip.NormalizeNumber(x, y)
 	switch tx := x.(type) {
 	case slip.Fixnum:
